@@ -711,4 +711,137 @@ func gen(o *kit.Out, r *kit.Rand, tier string) {
 		}
 	}
 	genMalformed(o, r.Fork(), map[bool]int{false: 3000, true: 12000}[thorough])
+	genBP(o, r.Fork(), thorough)
+}
+
+// ------------------------------------------------------------------ stage 2: bptree / ics23 (oracle only)
+
+func bpRandKey(r *kit.Rand, existing [][]byte) []byte {
+	switch {
+	case len(existing) > 0 && r.Chance(25):
+		// neighbour-ish: an existing key with a byte appended / its last byte nudged / a prefix
+		k := append([]byte{}, existing[r.Intn(len(existing))]...)
+		switch r.Intn(4) {
+		case 0:
+			return append(k, byte(r.Intn(3)))
+		case 1:
+			k[len(k)-1]++
+			return k
+		case 2:
+			k[len(k)-1]--
+			return k
+		default:
+			if len(k) > 1 {
+				return k[:len(k)-1]
+			}
+			return append(k, 0xff)
+		}
+	case r.Chance(10):
+		return []byte{byte(r.Intn(256))}
+	case r.Chance(5):
+		return r.Bytes(r.Range(60, 200))
+	}
+	return r.Bytes(r.Range(1, 12))
+}
+
+func bpCase(o *kit.Out, r *kit.Rand, id string, n int, rounds int, emptyVals bool, nprove int, nbits int) {
+	o.Case(id)
+	o.Op("bpnew")
+	var keys [][]byte
+	live := map[string]bool{}
+	for round := 0; round < rounds; round++ {
+		m := n
+		if round > 0 {
+			m = n/4 + 1
+		}
+		for i := 0; i < m; i++ {
+			k := bpRandKey(r, keys)
+			v := r.Bytes(r.Range(1, 40))
+			if emptyVals && i%3 == 1 {
+				v = []byte{}
+			}
+			o.Op("bpset %s %s", kit.Hex(k), kit.Hex(v))
+			if !live[string(k)] {
+				live[string(k)] = true
+				keys = append(keys, k)
+			}
+		}
+		if round > 0 {
+			// delete some, overwrite some
+			for i := 0; i < n/6+1 && len(keys) > 1; i++ {
+				j := r.Intn(len(keys))
+				o.Op("bpdel %s", kit.Hex(keys[j]))
+				delete(live, string(keys[j]))
+				keys = append(keys[:j], keys[j+1:]...)
+			}
+		}
+		o.Op("bpcommit")
+		// present keys
+		if emptyVals {
+			for _, k := range keys {
+				o.Op("bpprove %s %d", kit.Hex(k), nbits)
+				o.Op("bpprove %s %d", kit.Hex(append(append([]byte{}, k...), 0)), nbits) // absent, right after k
+			}
+		}
+		for i := 0; i < nprove && len(keys) > 0; i++ {
+			o.Op("bpprove %s %d", kit.Hex(keys[r.Intn(len(keys))]), nbits)
+		}
+		// smallest and largest present keys and keys just outside / between
+		if len(keys) > 0 {
+			mn, mx := keys[0], keys[0]
+			for _, k := range keys {
+				if string(k) < string(mn) {
+					mn = k
+				}
+				if string(k) > string(mx) {
+					mx = k
+				}
+			}
+			o.Op("bpprove %s %d", kit.Hex(mn), nbits)
+			o.Op("bpprove %s %d", kit.Hex(mx), nbits)
+			o.Op("bpprove %s %d", kit.Hex(append(append([]byte{}, mx...), 0)), nbits) // after-last
+			o.Op("bpprove ffffffffffffffffffffffffffffffffffffffffffffffffffffffffffffffffffffffffffffffffffffffffffffffffffffffffffffffffffffffffffffffff")
+			if len(mn) > 1 {
+				o.Op("bpprove %s %d", kit.Hex(mn[:len(mn)-1]), nbits) // before-first
+			} else if mn[0] > 0 {
+				o.Op("bpprove %s %d", kit.Hex([]byte{mn[0] - 1}), nbits)
+			}
+			o.Op("bpprove 00")
+		}
+		// absent keys: between neighbours and random
+		for i := 0; i < nprove; i++ {
+			o.Op("bpprove %s %d", kit.Hex(bpRandKey(r, keys)), nbits)
+		}
+	}
+}
+
+func genBP(o *kit.Out, r *kit.Rand, thorough bool) {
+	o.Case("bp-empty-tree")
+	o.Op("bpnew")
+	o.Op("bpcommit")
+	o.Op("bpprove 6b")
+	sizes := []int{1, 2, 3, 5, 31, 32, 33, 64, 65, 200}
+	nbits := 150
+	if thorough {
+		sizes = append(sizes, 1023, 1024, 1025, 1100, 3000)
+		nbits = 1500
+	}
+	// one small tree with EVERY proof bit of both operators flipped
+	bpCase(o, r, "bp-allbits", 3, 1, false, 2, 100000)
+	for _, n := range sizes {
+		np := 4
+		if n > 500 {
+			np = 6
+		}
+		bpCase(o, r, fmt.Sprintf("bp-%d", n), n, 2, false, np, nbits)
+	}
+	// empty values (documented as unprovable)
+	bpCase(o, r, "bp-emptyvals", 12, 1, true, 6, nbits)
+	cases := 6
+	if thorough {
+		cases = 25
+	}
+	for c := 0; c < cases; c++ {
+		bpCase(o, r, fmt.Sprintf("bp-rand-%d", c), r.Range(1, 120), r.Range(1, 3), false, 3, nbits)
+	}
 }
